@@ -422,8 +422,12 @@ def spec_set_end(pool, plinks, pre_l, pre_e, l, which, x):
     while i < len(pool):
         v = pool[i]
         if v is x:
-            if l in pre_l[i]:
-                # already listed: still listed exactly once; its position is not fixed by the statement
+            if v is old:
+                # the assigned vertex is the previous vertex of this end: it is still an end, so it must not
+                # be detached ("detaches the previous vertex only if it is no longer an end"): list untouched
+                ok = ok and (v._links == pre_l[i])
+            elif l in pre_l[i]:
+                # already listed because it is the OTHER end: still listed exactly once; where is not fixed
                 ok = ok and (without(v._links, l) == without(pre_l[i], l)) and (count_is(v._links, l) == 1)
             else:
                 ok = ok and (v._links == pre_l[i] + [l])
